@@ -41,6 +41,7 @@ import (
 	"encoding/json"
 	"errors"
 	"fmt"
+	"io"
 	"os"
 	"path/filepath"
 	"runtime"
@@ -52,6 +53,7 @@ import (
 	"time"
 
 	"github.com/btcsuite/btcd/chainhash/v2"
+	"github.com/btcsuite/btclog/v2"
 	"github.com/btcsuite/btcd/wire/v2"
 	"github.com/btcsuite/btcwallet/walletdb"
 	"github.com/lightningnetwork/lnd/chainntnfs"
@@ -113,6 +115,16 @@ func (d *vrStopDB) Update(f func(tx walletdb.ReadWriteTx) error, reset func()) e
 	return err
 }
 
+// remaining: transactions left before the scheduled stop (0: none scheduled).
+func (d *vrStopDB) remaining() int {
+	d.mu.Lock()
+	defer d.mu.Unlock()
+	if d.limit < 0 || d.limit <= d.committed {
+		return 0
+	}
+	return d.limit - d.committed
+}
+
 func (d *vrStopDB) BeginReadWriteTx() (walletdb.ReadWriteTx, error) {
 	return nil, errors.New("verif: BeginReadWriteTx not expected")
 }
@@ -124,15 +136,24 @@ func (d *vrStopDB) BeginReadWriteTx() (walletdb.ReadWriteTx, error) {
 // report it writes in the checkpoint transaction that ends the stage.
 type vrStage struct {
 	Outs [][]int64 `json:"outs"` // [kind, idx(, settled)] kind 1 fail 2 settle 3 final
-	Rep  []int64   `json:"rep"`  // [] or [outpoint index, outcome]
+	Rep  [][]int64 `json:"rep"`  // reports of the checkpoint tx: [outpoint index, outcome]
 }
 
 type vrResolver struct {
 	Key    int64            `json:"key"`    // outpoint index of the resolver key
-	Kind   string           `json:"kind"`   // commit|breach|timeout_remote|contest_timeout|contest_claim|timeout_local2|success_remote
+	Kind   string           `json:"kind"`   // commit|breach|timeout_remote|contest_timeout|contest_claim|timeout_local2|in_claim_remote|in_expire_remote|in_claim_local2|in_expire_local2
 	Idx    int64            `json:"idx"`    // htlc index
 	Stages []vrStage        `json:"stages"` // model script
-	PTab   map[string]int64 `json:"ptab"`   // "type,incubating,resolved" -> stages completed
+	PTab   map[string]int64 `json:"ptab"`   // "type,incubating,resolved[,preimage persisted]" -> stages completed
+}
+
+// vrEnvStep: one event of the environment, delivered when the node is
+// quiescent (blocks are slow compared to everything the node does): a block
+// at height H, or the preimage of received htlc Pre reaching the witness
+// beacon (AddPreimages: durable + subscribers notified).
+type vrEnvStep struct {
+	Pre int64 `json:"pre,omitempty"`
+	H   int64 `json:"h,omitempty"`
 }
 
 // vrCollide: an htlc that is NOT on the confirmed commitment but on another
@@ -158,6 +179,14 @@ type vrSpec struct {
 	FinalsClosed []int64      `json:"finals_closed"`
 	Resolvers    []vrResolver `json:"resolvers"`
 	Collide      []vrCollide  `json:"collide,omitempty"`
+	// H0: chain height once WaitingFullResolution is durable (0: 2000, the
+	// height at which every htlc of the scenario has expired); Env: later
+	// events; Known: received htlcs whose preimage is in the beacon at close.
+	H0    int64       `json:"h0,omitempty"`
+	Env   []vrEnvStep `json:"env,omitempty"`
+	Known []int64     `json:"known,omitempty"`
+	// FarExp: no htlc is within the broadcast delta at the closing height
+	FarExp bool `json:"farexp,omitempty"`
 }
 
 type vrSnap struct {
@@ -167,7 +196,7 @@ type vrSnap struct {
 	BC   bool      `json:"bc"`
 	CL   bool      `json:"cl"`
 	Full bool      `json:"full"`
-	Con  [][]int64 `json:"con"` // [key, type, incubating, resolved]
+	Con  [][]int64 `json:"con"` // [key, type, incubating, resolved, preimage persisted]
 	Rep  [][]int64 `json:"rep"` // [outpoint index, outcome]
 }
 
@@ -180,6 +209,11 @@ type vrCase struct {
 	ID      int       `json:"id"`
 	Spec    vrSpec    `json:"spec"`
 	Crashes []int     `json:"crashes"`
+	// EnvCrash: the first preimage event of Env is written to the beacon
+	// store WITHOUT reaching any subscriber and the node goes down right
+	// after it (stop between the beacon's durable write and its
+	// notification): the restarted node must find it by lookup.
+	EnvCrash bool     `json:"envcrash"`
 	Trace   []vrItem  `json:"trace"`
 	Outs    [][]int64 `json:"outs"` // cumulative set of outputs
 	NTx     int       `json:"ntx"`  // committed transactions in total
@@ -214,6 +248,7 @@ func vrStateCode(s ArbitratorState) int {
 var (
 	vrChanBucket   = []byte("verif-chan")
 	vrReportBucket = []byte("verif-reports")
+	vrFinalBucket  = []byte("verif-finals")
 )
 
 type vrWorld struct {
@@ -232,7 +267,15 @@ type vrWorld struct {
 	onSweep map[wire.OutPoint]*chainntnfs.SpendDetail
 	pending []wire.OutPoint // sweeps offered but not yet "confirmed"
 	waiters map[wire.OutPoint][]chan *chainntnfs.SpendDetail
-	epochs  []chan *chainntnfs.BlockEpoch
+	epochs  []*vrEpochSub
+	height  int32 // chain height (meaningful once the gate is open)
+	envPos  int   // next step of Spec.Env
+	envCrashed bool
+	known   map[lntypes.Hash]lntypes.Preimage // witness beacon store (durable)
+	subs    []chan lntypes.Preimage           // beacon subscribers (volatile)
+	needPre map[wire.OutPoint]lntypes.Hash    // htlc outputs only a preimage spend can claim
+	inPre   map[int64]lntypes.Preimage        // received htlc index -> its preimage
+	badSweeps int
 	gateOK  bool
 	gateCh  chan struct{} // closed when the gate opens
 	bcastCh chan struct{} // closed when MarkCommitmentBroadcasted is durable
@@ -242,6 +285,20 @@ type vrWorld struct {
 	closeTx    *wire.MsgTx
 	htlcs      map[HtlcSetKey][]channeldb.HTLC
 	preimage   lntypes.Preimage
+}
+
+type vrEpochSub struct {
+	ch   chan *chainntnfs.BlockEpoch
+	last int32
+}
+
+// emitCommitted records an output that IS a committed transaction of the
+// wrapped database (the stop flag may already be set by that very commit).
+func (w *vrWorld) emitCommitted(o ...int64) {
+	w.db.touch()
+	w.mu.Lock()
+	w.outs[fmt.Sprint(o)] = o
+	w.mu.Unlock()
 }
 
 func (w *vrWorld) emitOut(o ...int64) {
@@ -291,7 +348,7 @@ func (w *vrWorld) snapshot() *vrSnap {
 			}
 			typ := int64(v[0])
 			rd := bytes.NewReader(v[1:])
-			var inc, res bool
+			var inc, res, pre bool
 			cfg := ResolverConfig{}
 			switch resolverType(v[0]) {
 			case resolverTimeout:
@@ -312,12 +369,14 @@ func (w *vrWorld) snapshot() *vrSnap {
 					return err
 				}
 				inc, res = r.outputIncubating, r.IsResolved()
+				pre = r.htlcResolution.Preimage != lntypes.Preimage{}
 			case resolverIncomingContest:
 				r, err := newIncomingContestResolverFromReader(rd, cfg)
 				if err != nil {
 					return err
 				}
 				inc, res = r.outputIncubating, r.IsResolved()
+				pre = r.htlcResolution.Preimage != lntypes.Preimage{}
 			case resolverUnilateralSweep:
 				r, err := newCommitSweepResolverFromReader(rd, cfg)
 				if err != nil {
@@ -337,7 +396,7 @@ func (w *vrWorld) snapshot() *vrSnap {
 				}
 				return 0
 			}
-			s.Con = append(s.Con, []int64{id, typ, b2i(inc), b2i(res)})
+			s.Con = append(s.Con, []int64{id, typ, b2i(inc), b2i(res), b2i(pre)})
 			return nil
 		})
 	}, func() {})
@@ -433,13 +492,80 @@ func (w *vrWorld) pump() {
 		}
 	}
 	w.pending = nil
-	for _, ch := range w.epochs {
+	for _, e := range w.epochs {
+		if e.last == w.height {
+			continue
+		}
 		select {
-		case ch <- &chainntnfs.BlockEpoch{Height: 2000}:
+		case e.ch <- &chainntnfs.BlockEpoch{Height: w.height}:
+			e.last = w.height
 		default:
 		}
 	}
-	w.epochs = nil
+}
+
+// openGate: WaitingFullResolution is durable (or the scenario is eager): the
+// chain starts to move.
+func (w *vrWorld) openGate() {
+	w.mu.Lock()
+	w.gateOK = true
+	w.height = 2000
+	if w.c.Spec.H0 != 0 {
+		w.height = int32(w.c.Spec.H0)
+	}
+	close(w.gateCh)
+	w.mu.Unlock()
+	w.db.touch()
+}
+
+// addPreimage: the witness beacon learns a preimage (durable), subscribers
+// are notified unless quiet.
+func (w *vrWorld) addPreimage(p lntypes.Preimage, quiet bool) {
+	w.mu.Lock()
+	defer w.mu.Unlock()
+	w.known[p.Hash()] = p
+	if quiet {
+		return
+	}
+	for _, ch := range w.subs {
+		select {
+		case ch <- p:
+		default:
+		}
+	}
+}
+
+func (w *vrWorld) envLeft() bool {
+	w.mu.Lock()
+	defer w.mu.Unlock()
+	return w.gateOK && w.envPos < len(w.c.Spec.Env)
+}
+
+// envStep delivers the next environment event; false if there is none.
+// crash = the event was a quiet preimage write followed by a node stop.
+func (w *vrWorld) envStep() (ok bool, crash bool) {
+	w.mu.Lock()
+	if !w.gateOK || w.envPos >= len(w.c.Spec.Env) {
+		w.mu.Unlock()
+		return false, false
+	}
+	st := w.c.Spec.Env[w.envPos]
+	w.envPos++
+	if st.H != 0 {
+		w.height = int32(st.H)
+	}
+	w.mu.Unlock()
+	w.db.touch()
+	if st.Pre != 0 {
+		quiet := w.c.EnvCrash && !w.envCrashed
+		w.addPreimage(w.inPre[st.Pre], quiet)
+		if quiet {
+			w.envCrashed = true
+			return true, true
+		}
+	}
+	w.pump()
+	return true, false
 }
 
 type vrNotifier struct{ w *vrWorld }
@@ -473,7 +599,7 @@ func (n *vrNotifier) RegisterBlockEpochNtfn(*chainntnfs.BlockEpoch) (
 	w := n.w
 	ch := make(chan *chainntnfs.BlockEpoch, 1)
 	w.mu.Lock()
-	w.epochs = append(w.epochs, ch)
+	w.epochs = append(w.epochs, &vrEpochSub{ch: ch, last: -1})
 	w.mu.Unlock()
 	w.pump()
 	return &chainntnfs.BlockEpochEvent{Epochs: ch, Cancel: func() {}}, nil
@@ -493,6 +619,16 @@ func (s *vrSweeper) SweepInput(inp input.Input, _ sweep.Params) (chan sweep.Resu
 		return make(chan sweep.Result, 1), nil
 	}
 	w.mu.Lock()
+	if hsh, ok := w.needPre[op]; ok {
+		// only a witness with the htlc's preimage can spend this output:
+		// a sweep built with another (or no) preimage never confirms
+		p := inp.Preimage().UnwrapOr(lntypes.Preimage{})
+		if !p.Matches(hsh) {
+			w.badSweeps++
+			w.mu.Unlock()
+			return make(chan sweep.Result, 1), nil
+		}
+	}
 	w.pending = append(w.pending, op)
 	w.mu.Unlock()
 	w.pump()
@@ -522,15 +658,43 @@ type vrBeacon struct{ w *vrWorld }
 func (m *vrBeacon) SubscribeUpdates(lnwire.ShortChannelID, *channeldb.HTLC,
 	*hop.Payload, []byte) (*WitnessSubscription, error) {
 
+	ch := make(chan lntypes.Preimage, 8)
+	m.w.mu.Lock()
+	m.w.subs = append(m.w.subs, ch)
+	m.w.mu.Unlock()
 	return &WitnessSubscription{
-		WitnessUpdates:     make(chan lntypes.Preimage),
+		WitnessUpdates:     ch,
 		CancelSubscription: func() {},
 	}, nil
 }
 func (m *vrBeacon) LookupPreimage(h lntypes.Hash) (lntypes.Preimage, bool) {
-	return lntypes.Preimage{}, false
+	m.w.mu.Lock()
+	defer m.w.mu.Unlock()
+	p, ok := m.w.known[h]
+	return p, ok
 }
-func (m *vrBeacon) AddPreimages(...lntypes.Preimage) error { return nil }
+func (m *vrBeacon) AddPreimages(ps ...lntypes.Preimage) error {
+	if m.w.db.stopped.Load() {
+		return nil
+	}
+	for _, p := range ps {
+		m.w.addPreimage(p, false)
+	}
+	return nil
+}
+
+// vrOnion: every received htlc of the scenarios is a forwarded one (we are
+// not the exit hop): its preimage can only come from the witness beacon.
+type vrOnion struct{}
+
+func (vrOnion) ReconstructHopIterator(r io.Reader, _ []byte,
+	_ hop.ReconstructBlindingInfo) (hop.Iterator, error) {
+
+	if _, err := io.ReadAll(r); err != nil {
+		return nil, err
+	}
+	return &mockHopIterator{}, nil
+}
 
 type vrChannel struct{ w *vrWorld }
 
@@ -549,6 +713,16 @@ const (
 	vrCloseHeight = 500
 	vrStartHeight = 100
 )
+
+// inPreimage: the preimage of received htlc idx (the htlc's RHash is its hash).
+func (w *vrWorld) inPreimage(idx int64) lntypes.Preimage {
+	if p, ok := w.inPre[idx]; ok {
+		return p
+	}
+	p := lntypes.Preimage{0x43, byte(w.c.ID), byte(w.c.ID >> 8), byte(idx)}
+	w.inPre[idx] = p
+	return p
+}
 
 func vrSignDesc() input.SignDescriptor {
 	return input.SignDescriptor{Output: &wire.TxOut{Value: 10000}, WitnessScript: []byte{0}}
@@ -724,9 +898,60 @@ func (w *vrWorld) build() vrEvent {
 			op2 := wire.OutPoint{Hash: th, Index: 0}
 			w.onSweep[op2] = vrSpendBy(op2, wire.TxWitness{{1}, {2}}, 3)
 			regKey(op, r.Key)
+		case "in_claim_remote", "in_expire_remote":
+			// received htlc on the remote commitment: claimable with the
+			// preimage by a direct spend; expiry 1500
+			pre := w.inPreimage(r.Idx)
+			addHtlc(confKey, mk(r.Idx, true, int32(r.Key), 1500, pre.Hash()))
+			hr.IncomingHTLCs = append(hr.IncomingHTLCs, lnwallet.IncomingHtlcResolution{
+				ClaimOutpoint: op, SweepSignDesc: vrSignDesc(), CsvDelay: 4,
+			})
+			w.needPre[op] = pre.Hash()
+			// <sig> <preimage> <witness script>
+			w.onSweep[op] = vrSpendBy(op, wire.TxWitness{{1}, pre[:], {0}}, 4)
+			regKey(op, r.Key)
+		case "in_claim_local2", "in_expire_local2":
+			// received htlc on OUR commitment, anchor channel: second-level
+			// success tx (needs the preimage), then its CSV-locked output
+			pre := w.inPreimage(r.Idx)
+			addHtlc(confKey, mk(r.Idx, true, int32(r.Key), 1500, pre.Hash()))
+			stx := &wire.MsgTx{
+				Version: 2,
+				TxIn: []*wire.TxIn{{PreviousOutPoint: op,
+					Witness: wire.TxWitness{{}, {1}, {2}, {}, {0x52}}}},
+				TxOut: []*wire.TxOut{{Value: 10000}},
+			}
+			sh := stx.TxHash()
+			op2 := wire.OutPoint{Hash: sh, Index: 0}
+			if r.Kind == "in_expire_local2" {
+				// never spent by us; the Timeout report of the contest
+				// resolver names the ClaimOutpoint: give it an index
+				// no other report of the scenario uses
+				op2.Index = 1
+			}
+			hr.IncomingHTLCs = append(hr.IncomingHTLCs, lnwallet.IncomingHtlcResolution{
+				SignedSuccessTx: stx, CsvDelay: 4, ClaimOutpoint: op2,
+				SweepSignDesc: vrSignDesc(),
+				SignDetails: &input.SignDetails{
+					SignDesc: testSignDesc, SigHashType: 0x83, PeerSig: testSig,
+				},
+			})
+			w.needPre[op] = pre.Hash()
+			ctx := stx.Copy()
+			ctx.TxIn[0].Witness[3] = pre[:]
+			opc := op
+			w.onSweep[op] = &chainntnfs.SpendDetail{
+				SpentOutPoint: &opc, SpenderTxHash: &sh, SpendingTx: ctx,
+				SpenderInputIndex: 0, SpendingHeight: vrCloseHeight + 50,
+			}
+			w.onSweep[op2] = vrSpendBy(op2, wire.TxWitness{{1}, {2}}, 5)
+			regKey(op, r.Key)
 		default:
 			w.t.Fatalf("unknown resolver kind %q", r.Kind)
 		}
+	}
+	for _, i := range sp.Known {
+		w.addPreimage(w.inPreimage(i), true)
 	}
 	hcopy := func() map[HtlcSetKey][]channeldb.HTLC {
 		m := map[HtlcSetKey][]channeldb.HTLC{}
@@ -842,7 +1067,7 @@ func (w *vrWorld) boot(ev vrEvent) *vrInc {
 
 			return nil
 		},
-		OnionProcessor:  &mockOnionProcessor{},
+		OnionProcessor:  vrOnion{},
 		IsForwardedHTLC: func(lnwire.ShortChannelID, uint64) bool { return true },
 		SubscribeBreachComplete: func(*wire.OutPoint, chan struct{}) (bool, error) {
 			// the breach arbitrator has already swept everything
@@ -852,12 +1077,25 @@ func (w *vrWorld) boot(ev vrEvent) *vrInc {
 		Sweeper:      &vrSweeper{w: w},
 		HtlcNotifier: &mockHTLCNotifier{},
 		PutFinalHtlcOutcome: func(_ lnwire.ShortChannelID, id uint64, settled bool) error {
+			// channeldb.PutOnchainFinalHtlcOutcome: its own transaction
 			s := int64(0)
 			if settled {
 				s = 1
 			}
-			w.emitOut(3, int64(id), s)
-			return nil
+			err := w.db.Update(func(tx walletdb.ReadWriteTx) error {
+				b, err := tx.CreateTopLevelBucket(vrFinalBucket)
+				if err != nil {
+					return err
+				}
+				k := make([]byte, 9)
+				binary.BigEndian.PutUint64(k[0:8], id)
+				k[8] = byte(s)
+				return b.Put(k, []byte{1})
+			}, func() {})
+			if err == nil {
+				w.emitCommitted(3, int64(id), s)
+			}
+			return err
 		},
 		Budget:     *DefaultBudgetConfig(),
 		PreimageDB: &vrBeacon{w: w},
@@ -974,6 +1212,7 @@ func (w *vrWorld) run() {
 	// maxWait is only a fallback.
 	idle := time.Duration(vEnvInt("VERIF_C13_IDLE_MS", 40)) * time.Millisecond
 	maxWait := time.Duration(vEnvInt("VERIF_C13_MAXWAIT_MS", 20000)) * time.Millisecond
+	envIdle := time.Duration(vEnvInt("VERIF_C13_ENVIDLE_MS", 8)) * time.Millisecond
 	for {
 		c.Incs++
 		if w.chanGet("full") != nil {
@@ -1053,17 +1292,20 @@ func (w *vrWorld) run() {
 			gate := w.gateOK
 			w.mu.Unlock()
 			if !gate && (c.Spec.Eager || w.diskState() >= 4) {
-				w.mu.Lock()
-				w.gateOK = true
-				close(w.gateCh)
-				w.mu.Unlock()
-				w.db.touch()
+				w.openGate()
 			}
 			w.pump()
 			since := time.Since(time.Unix(0, w.db.lastAct.Load()))
+			// while the environment still has events the decisive test is
+			// "every goroutine is parked" (sampled 4 times), the idle time
+			// is only a margin
+			idle, gap := idle, 5*time.Millisecond
+			if w.envLeft() {
+				idle, gap = envIdle, 2*time.Millisecond
+			}
 			if since > idle && (since > maxWait || (vrAllBlocked() && func() bool {
 				for i := 0; i < 3; i++ {
-					time.Sleep(5 * time.Millisecond)
+					time.Sleep(gap)
 					if !vrAllBlocked() ||
 						time.Since(time.Unix(0, w.db.lastAct.Load())) <= idle {
 						return false
@@ -1076,6 +1318,19 @@ func (w *vrWorld) run() {
 					n := runtime.Stack(buf, true)
 					fmt.Fprintf(os.Stderr, "IDLE case %d crashes %v inc %d\n%s\n",
 						c.ID, c.Crashes, c.Incs, buf[:n])
+				}
+				// quiescent: the environment moves on (next block / the
+				// preimage reaches the beacon), if it has anything left
+				if ok, crash := w.envStep(); ok {
+					if crash {
+						// quiet preimage write, then the node goes down
+						if left := w.db.remaining(); left > 0 {
+							sched = append([]int{left}, sched...)
+						}
+						w.db.stopped.Store(true)
+						outcome = "stop"
+					}
+					continue
 				}
 				outcome = "idle"
 				continue
@@ -1099,6 +1354,7 @@ func (w *vrWorld) run() {
 			// registrations die with the process
 			w.waiters = map[wire.OutPoint][]chan *chainntnfs.SpendDetail{}
 			w.epochs = nil
+			w.subs = nil
 			w.mu.Unlock()
 			continue
 		}
@@ -1113,6 +1369,7 @@ func (w *vrWorld) run() {
 			w.trace = append(w.trace, vrItem{T: "crash"})
 			w.waiters = map[wire.OutPoint][]chan *chainntnfs.SpendDetail{}
 			w.epochs = nil
+			w.subs = nil
 			w.mu.Unlock()
 			sched = sched[1:]
 			continue
@@ -1186,6 +1443,9 @@ func vrRunCase(t *testing.T, dir string, c *vrCase) {
 		spent:   map[wire.OutPoint]*chainntnfs.SpendDetail{},
 		onSweep: map[wire.OutPoint]*chainntnfs.SpendDetail{},
 		waiters: map[wire.OutPoint][]chan *chainntnfs.SpendDetail{},
+		known:   map[lntypes.Hash]lntypes.Preimage{},
+		needPre: map[wire.OutPoint]lntypes.Hash{},
+		inPre:   map[int64]lntypes.Preimage{},
 		gateCh:  make(chan struct{}),
 		bcastCh: make(chan struct{}),
 	}
@@ -1216,39 +1476,88 @@ func vrSettle(i int64) []int64 { return []int64{2, i} }
 
 func vrResCommit() vrResolver {
 	return vrResolver{Key: 900, Kind: "commit",
-		Stages: []vrStage{{Outs: [][]int64{}, Rep: []int64{900, 0}}},
+		Stages: []vrStage{{Outs: [][]int64{}, Rep: [][]int64{{900, 0}}}},
 		PTab:   map[string]int64{"4,0,0": 0, "4,0,1": 1}}
 }
 func vrResBreach() vrResolver {
 	return vrResolver{Key: 999, Kind: "breach",
-		Stages: []vrStage{{Outs: [][]int64{}, Rep: []int64{}}},
+		Stages: []vrStage{{Outs: [][]int64{}, Rep: [][]int64{}}},
 		PTab:   map[string]int64{"5,0,0": 0, "5,0,1": 1}}
 }
 func vrResTimeoutRemote(key, idx int64) vrResolver {
 	return vrResolver{Key: key, Kind: "timeout_remote", Idx: idx,
-		Stages: []vrStage{{Outs: [][]int64{vrFail(idx)}, Rep: []int64{key, 3}}},
+		Stages: []vrStage{{Outs: [][]int64{vrFail(idx)}, Rep: [][]int64{{key, 3}}}},
 		PTab:   map[string]int64{"0,0,0": 0, "0,0,1": 1}}
 }
 func vrResContestTimeout(key, idx int64) vrResolver {
 	return vrResolver{Key: key, Kind: "contest_timeout", Idx: idx,
 		Stages: []vrStage{
-			{Outs: [][]int64{}, Rep: []int64{}},
-			{Outs: [][]int64{vrFail(idx)}, Rep: []int64{key, 3}},
+			{Outs: [][]int64{}, Rep: [][]int64{}},
+			{Outs: [][]int64{vrFail(idx)}, Rep: [][]int64{{key, 3}}},
 		},
 		PTab: map[string]int64{"2,0,0": 0, "0,0,0": 1, "0,0,1": 2}}
 }
 func vrResContestClaim(key, idx int64) vrResolver {
 	return vrResolver{Key: key, Kind: "contest_claim", Idx: idx,
-		Stages: []vrStage{{Outs: [][]int64{vrSettle(idx)}, Rep: []int64{key, 0}}},
+		Stages: []vrStage{{Outs: [][]int64{vrSettle(idx)}, Rep: [][]int64{{key, 0}}}},
 		PTab:   map[string]int64{"2,0,0": 0, "0,0,1": 1}}
 }
 func vrResTimeoutLocal2(key, idx int64) vrResolver {
 	return vrResolver{Key: key, Kind: "timeout_local2", Idx: idx,
 		Stages: []vrStage{
-			{Outs: [][]int64{vrFail(idx)}, Rep: []int64{key, 4}},
-			{Outs: [][]int64{}, Rep: []int64{0, 3}},
+			{Outs: [][]int64{vrFail(idx)}, Rep: [][]int64{{key, 4}}},
+			{Outs: [][]int64{}, Rep: [][]int64{{0, 3}}},
 		},
 		PTab: map[string]int64{"0,0,0": 0, "0,1,0": 1, "0,1,1": 2}}
+}
+
+// ---- received (incoming) htlcs, non-dust.  lnd creates an
+// htlcIncomingContestResolver for every one of them (HtlcIncomingWatchAction;
+// HtlcClaimAction is never produced by checkCommitChainActions): a preimage
+// known at close is found by Launch/Resolve of the contest resolver. ----
+func vrFinal(i int64, settled int64) []int64 { return []int64{3, i, settled} }
+
+// preimage known (at close or later), remote commitment: SwapContract to the
+// success resolver (preimage persisted inside it); direct preimage spend
+// confirms -> PutFinalHtlcOutcome(settled), Checkpoint(resolved) + Claimed.
+func vrResInClaimRemote(key, idx int64) vrResolver {
+	return vrResolver{Key: key, Kind: "in_claim_remote", Idx: idx,
+		Stages: []vrStage{
+			{Outs: [][]int64{}, Rep: [][]int64{}},
+			{Outs: [][]int64{vrFinal(idx, 1)}, Rep: [][]int64{{key, 0}}},
+		},
+		PTab: map[string]int64{"3,0,0,0": 0, "1,0,0,1": 1, "1,0,1,1": 2}}
+}
+
+// our commitment (anchor channel): swap; second-level success tx confirms ->
+// Checkpoint(outputIncubating); its output is swept ->
+// PutFinalHtlcOutcome(settled), Checkpoint(resolved) + Claimed + FirstStage.
+func vrResInClaimLocal2(key, idx int64) vrResolver {
+	return vrResolver{Key: key, Kind: "in_claim_local2", Idx: idx,
+		Stages: []vrStage{
+			{Outs: [][]int64{}, Rep: [][]int64{}},
+			{Outs: [][]int64{}, Rep: [][]int64{}},
+			{Outs: [][]int64{vrFinal(idx, 1)}, Rep: [][]int64{{0, 0}, {key, 4}}},
+		},
+		PTab: map[string]int64{"3,0,0,0": 0, "1,0,0,1": 1, "1,1,0,1": 2, "1,1,1,1": 3}}
+}
+
+// preimage never learned: at the expiry height the contest resolver gives up:
+// PutFinalHtlcOutcome(not settled), Checkpoint(resolved) + Timeout report.
+// NOTHING goes to the switch (the htlc's upstream is the closed channel's
+// peer, who takes the output back on chain).
+func vrResInExpire(key, idx int64, local bool) vrResolver {
+	kind := "in_expire_remote"
+	if local {
+		kind = "in_expire_local2"
+	}
+	rk := key // the report names htlcResolution.ClaimOutpoint
+	if local {
+		rk = 1
+	}
+	return vrResolver{Key: key, Kind: kind, Idx: idx,
+		Stages: []vrStage{{Outs: [][]int64{vrFinal(idx, 0)}, Rep: [][]int64{{rk, 3}}}},
+		PTab:   map[string]int64{"3,0,0,0": 0, "3,0,1,0": 1}}
 }
 
 func vrScenarios() []vrSpec {
@@ -1305,16 +1614,64 @@ func vrScenarios() []vrSpec {
 				vrResContestTimeout(24, 4), vrResContestClaim(25, 5)},
 			Collide: []vrCollide{{Set: "local", Idx: 98, OutIdx: 21},
 				{Set: "local", Idx: 97, OutIdx: 24}, {Set: "local", Idx: 96, OutIdx: 25}}},
+		// ---- received htlcs ----
+		// Every scenario but the last contains an offered htlc that is
+		// within the broadcast delta at the closing height (like all
+		// scenarios above): constructChainActions then yields the same
+		// actions for a chain trigger (restart in StateContractClosed) as
+		// for the close trigger -- see f3_remote_in_far.
+		// (a) preimage known at close, remote commitment
+		{Name: "remote_in_known", Kind: "remote", FailsDefault: e, FailsClosed: e,
+			FinalsClosed: e, H0: 600, Known: []int64{7},
+			Resolvers: []vrResolver{vrResCommit(), vrResTimeoutRemote(21, 1),
+				vrResInClaimRemote(27, 7)}},
+		// (b) htlc 7: preimage learned two blocks after the close (possibly
+		// after a restart); (c) htlc 8: never learned, expires; mixed with
+		// offered htlcs, an offered dust htlc and a received dust htlc
+		{Name: "remote_in_mixed", Kind: "remote", FailsDefault: []int64{2}, FailsClosed: e,
+			FinalsClosed: []int64{3}, H0: 600,
+			Env: []vrEnvStep{{H: 700}, {Pre: 7}, {H: 2000}},
+			Resolvers: []vrResolver{vrResCommit(), vrResTimeoutRemote(21, 1),
+				vrResContestTimeout(24, 4), vrResInClaimRemote(27, 7),
+				vrResInExpire(28, 8, false)}},
+		// (c) alone
+		{Name: "remote_in_expire", Kind: "remote", FailsDefault: e, FailsClosed: e,
+			FinalsClosed: e, H0: 600, Env: []vrEnvStep{{H: 1499}, {H: 1500}},
+			Resolvers: []vrResolver{vrResCommit(), vrResTimeoutRemote(21, 1),
+				vrResInExpire(28, 8, false)}},
+		// our commitment: (a) two-stage success with the preimage known at
+		// close, next to a two-stage timeout of an offered htlc
+		{Name: "local_in_known2", Kind: "local", UserFC: true, FailsDefault: e, FailsClosed: e,
+			FinalsClosed: e, H0: 600, Known: []int64{7},
+			Resolvers: []vrResolver{vrResCommit(), vrResTimeoutLocal2(22, 1),
+				vrResInClaimLocal2(27, 7)}},
+		// (b) + (c) on our commitment
+		{Name: "local_in_mixed2", Kind: "local", UserFC: true, FailsDefault: e, FailsClosed: e,
+			FinalsClosed: []int64{3}, H0: 600, Env: []vrEnvStep{{Pre: 7}, {H: 2000}},
+			Resolvers: []vrResolver{vrResCommit(), vrResTimeoutLocal2(22, 1),
+				vrResInClaimLocal2(27, 7), vrResInExpire(28, 8, true)}},
+		// finding C13-F3: NO htlc near its expiry at the closing height.  A
+		// restart in StateContractClosed re-runs the state with chainTrigger,
+		// for which checkCommitChainActions returns no actions at all.
+		{Name: "f3_remote_in_far", Kind: "remote", FailsDefault: e, FailsClosed: e,
+			FinalsClosed: e, H0: 600, Known: []int64{7}, FarExp: true,
+			Resolvers: []vrResolver{vrResCommit(), vrResInClaimRemote(27, 7)}},
 	}
 }
 
 func TestVerifRestart(t *testing.T) {
+	if os.Getenv("VERIF_C13_LOG") != "" {
+		lg := btclog.NewSLogger(btclog.NewDefaultHandler(os.Stderr))
+		lg.SetLevel(btclog.LevelDebug)
+		UseLogger(lg)
+	}
 	out := vOpenOut()
 	defer out.close()
 	dir := t.TempDir()
 	id := 0
+	envCrash := false
 	run := func(sp vrSpec, crashes []int) *vrCase {
-		c := &vrCase{ID: id, Spec: sp, Crashes: crashes}
+		c := &vrCase{ID: id, Spec: sp, Crashes: crashes, EnvCrash: envCrash}
 		id++
 		vrRunCase(t, dir, c)
 		out.emit(c)
@@ -1336,7 +1693,8 @@ func TestVerifRestart(t *testing.T) {
 		// the uninterrupted run of the scenario (the reference the predicate
 		// compares with), then the recorded stop schedule
 		run(rp.Detail.Case.Spec, []int{})
-		if len(rp.Detail.Case.Crashes) > 0 {
+		envCrash = rp.Detail.Case.EnvCrash
+		if len(rp.Detail.Case.Crashes) > 0 || envCrash {
 			run(rp.Detail.Case.Spec, rp.Detail.Case.Crashes)
 		}
 		return
@@ -1379,6 +1737,23 @@ func TestVerifRestart(t *testing.T) {
 				cr = append(cr, 1+r.intn(3))
 			}
 			run(sp, cr)
+		}
+		// the preimage reaches the beacon's store but no subscriber, and the
+		// node goes down (stop between AddPreimages' write and its
+		// notification), alone and combined with stops after transactions
+		hasPre := false
+		for _, st := range sp.Env {
+			hasPre = hasPre || st.Pre != 0
+		}
+		if hasPre {
+			envCrash = true
+			run(sp, []int{})
+			for k := 0; k < n; k++ {
+				if thorough || r.intn(4) == 0 {
+					run(sp, []int{k})
+				}
+			}
+			envCrash = false
 		}
 	}
 }
